@@ -193,6 +193,52 @@ def run_recorder(ctx, facts, scen):
     return stats
 
 
+# ----------------------------------------------------------------------------- recorder: one retention
+
+def agree_scenarios(rng, n):
+    """one history, saved, then expired in memory and reloaded from the file under the same clock: both must keep the
+    same entries (c20_load_expire_agree). Ages sit on a half-day grid far from any whole-day boundary, up to ~5 months."""
+    scen = []
+    for _ in range(n):
+        ops = ["r reset"]
+        users = rng.sample(USERS, rng.choice([1, 2]))
+        days = sorted(rng.sample(range(0, 150), rng.randrange(3, 25)), reverse=True)
+        for d in days:
+            ops.append(rec_event(rng, rng.choice(users), d * 86400 + 43200))
+        ops += ["r snap", "r save", "r expire -", "r snap", "r load -", "r snap"]
+        scen.append(ops)
+    return scen
+
+
+def run_agree(ctx, scen, flag_ops, label):
+    ops = list(flag_ops) + [o for s in scen for o in s]
+    impl, raw, rc = harness(ctx, "eventmon/eventrecorder", ops, tag="g")
+    if rc != 0 or len(impl) != len(ops):
+        ctx.broken.append("harness eventrecorder (%s) did not complete (exit %d, %d/%d lines)" % (label, rc, len(impl), len(ops)))
+        return {}
+    flags_set = [l for l in impl[:len(flag_ops)] if l.startswith("flag ")]
+    jops, jmeta = [], []
+    start = 0
+    for i, o in enumerate(ops):
+        if o == "r reset":
+            start = i
+        if o.startswith("r load") and ops[i - 1] == "r snap" and ops[i - 2].startswith("r expire") and i + 1 < len(ops):
+            exp, loaded, before = snap_map(impl[i - 1]), snap_map(impl[i + 1]), snap_map(impl[i - 4])
+            for u in sorted(before):
+                e = exp.get(u, "-/-").split("!")[0].split("/")[0]
+                l = loaded.get(u, "-/-").split("!")[0].split("/")[0]
+                jops.append("loadexpire %s %s" % (l, e))
+                jmeta.append((start, i, u, before[u], l, e))
+    verdicts = c.run_driver(ctx, "judge", jops) if jops else []
+    for (s0, i, u, b, l, e), v in zip(jmeta, verdicts):
+        if v != "ok":
+            c.add_violation(ctx, "recorder-two-retentions",
+                            "%s, user %s: history %s — the hourly expiry keeps %s, a save + restart at the same time keeps %s: %s" % (
+                                label + (" with " + "; ".join(flags_set) if flags_set else ""), u, hist(b), hist(e + "/"), hist(l + "/"), v),
+                            {"stream": "g", "ops": list(flag_ops) + ops[s0:i + 2], "flags": flags_set, "judge": v})
+    return {"histories_judged": len(jops), "options_moved": flags_set}
+
+
 # ----------------------------------------------------------------------------- recorder: the real event loop
 
 def loop_rec(rng, sid):
@@ -491,7 +537,10 @@ VARIANTS = ["rsa", "ec", "ed25519", "weak", "garbage"]
 
 
 def issue_ops(rng, n):
-    ops = ["i sub 1 fast", "i issue aws rsa", "i sub 2 fast"]
+    ops = ["i sub 1 fast", "i issue aws rsa", "i sub 2 fast",
+           # overlapping subscribers (all come from one address here, like two monitors behind one NAT or a monitor
+           # that reconnected): every one of them gets every event, also after another one has gone
+           "i sub 8 fast", "i issue ssh rsa", "i close 2", "i issue x509 ec", "i sub 2 fast", "i close 8", "i issue ssh ec"]
     for p in PATHS:
         for v in VARIANTS:
             ops.append("i issue %s %s" % (p, v))
@@ -566,9 +615,16 @@ def run_issuing(ctx, ops):
     for (i, o, l, r), v in zip(jmeta, verdicts):
         if v != "ok":
             path = o.split()[2]
-            key = ("unpublished:" if "no-event" in v or "subscriber" in v else "blocked:") + path
+            toks = [x.split(":", 1) for x in l.split()[3:] if ":" in x]
+            served = [t[0] for t in toks if t[1] != "-"]
+            starved = [t[0] for t in toks if t[1] == "-"]
+            if served and starved:
+                key = "subscriber-starved"
+                v += " — connected subscribers %s received the event, %s did not" % (",".join(served), ",".join(starved))
+            else:
+                key = ("unpublished:" if "no-event" in v or "subscriber" in v else "blocked:") + path
             c.add_violation(ctx, key, "issuing path %s (key %s) returned a certificate but %s; harness said %r" % (
-                path, o.split()[3], v, r), {"stream": "i", "ops": ["i sub 1 fast", o], "impl": r, "judge": v})
+                path, o.split()[3], v, r), {"stream": "i", "ops": [x for x in ops[:i] if x.split()[1] in ("sub", "close")] + [o], "impl": r, "judge": v})
     stats["judged"] = len(jops)
     return stats
 
@@ -584,7 +640,7 @@ def run(ctx):
     retention = facts["c20"]["load_retention_s"]
     if ctx.replay:
         rp = json.load(open(ctx.replay))
-        by = {"r": [], "n": [], "i": [], "l": []}
+        by = {"r": [], "n": [], "i": [], "l": [], "g": []}
         for v in rp.get("violations", []):
             r = v.get("replay", {})
             if r.get("stream") in by and r.get("ops"):
@@ -592,11 +648,21 @@ def run(ctx):
         rstats = run_recorder(ctx, facts, by["r"] or rec_scenarios(ctx.rng, 1, retention))
         nstats = run_notifier(ctx, facts, by["n"]) if by["n"] else {}
         istats = run_issuing(ctx, [o for s in by["i"] for o in s]) if by["i"] else {}
+        for gops in by["g"][:3]:
+            nf = len([o for o in gops if o.startswith("r scaleflag")])
+            run_agree(ctx, [gops[nf:]], gops[:nf], "replay")
         lstats = {}
         for lops in by["l"][:3]:
             lstats = run_loop(ctx, facts, lops)
     else:
         rstats = run_recorder(ctx, facts, rec_scenarios(ctx.rng, 120 if q else 2500, retention))
+        astats = {"default": run_agree(ctx, agree_scenarios(ctx.rng, 30 if q else 400), [], "default options")}
+        rflags = facts["c20"].get("recorder_flags") or []
+        if rflags:
+            # every command-line option the recorder package defines, moved away from its default (x3)
+            astats["moved"] = run_agree(ctx, agree_scenarios(ctx.rng, 30 if q else 200),
+                                        ["r scaleflag %s 3" % f["name"] for f in rflags], "options away from their defaults")
+        ctx.coverage["recorder_one_retention"] = astats
         delay = facts["c20"]["save_delay_ms"]
         if 0 < delay <= 10000:
             lstats = run_loop(ctx, facts, loop_ops(ctx.rng, 40 if q else 400, 2 if q else 4, delay + 700))
